@@ -606,6 +606,21 @@ func main() {
 	for _, t := range fixedTexts {
 		pcase(t, "fixed")
 	}
+	// the parser's nesting cap (secs2.MaxListDepth = 64): at, below and above it; the counter
+	// must come back down when a list closes (siblings at the deepest admitted level) and start
+	// from zero in every message
+	for _, n := range []int{1, 63, 64, 65, 66, 100, 300} {
+		open, cl := strings.Repeat("<L ", n), strings.Repeat(">", n)
+		pcase("S1F1 "+open+cl+".", "depth")
+		pcase("S1F1 "+strings.Repeat("<L[1]\n", n)+"<B 1>"+cl+" .", "depth")
+		if n > 1 {
+			inner := strings.Repeat("<L ", n-1) + "<L><L <A 'x'>><L>" + strings.Repeat(">", n-1)
+			pcase("S1F1 "+inner+".", "depth")
+			pcase("S1F1 "+open+cl+". S2F3 W "+open+cl+".", "depth")
+			pcase("S1F1 <L "+strings.Repeat("<L ", n-1)+strings.Repeat(">", n-1)+" "+strings.Repeat("<L ", n-1)+strings.Repeat(">", n-1)+" >.", "depth")
+			pcase("S1F1 "+open+strings.Repeat(">", n-1)+".", "depth") // unbalanced
+		}
+	}
 
 	// premises about strconv that are not checked per value elsewhere
 	if strconv.Quote("\u00a0") != `"\u00a0"` {
